@@ -474,26 +474,27 @@ type Entry struct {
 }
 
 type Req struct {
-	Kind    string     `json:"kind"`
-	Parent  string     `json:"parent,omitempty"`
-	Tid     string     `json:"tid,omitempty"`
-	Fams    []FamDef   `json:"fams,omitempty"`
-	Table   string     `json:"table,omitempty"`
-	Mods    []FMod     `json:"mods,omitempty"`
-	All     bool       `json:"all,omitempty"`
-	Prefix  []byte     `json:"prefix,omitempty"`
-	HasPfx  bool       `json:"haspfx,omitempty"`
-	Key     []byte     `json:"key,omitempty"`
-	Muts    []Mutation `json:"muts,omitempty"`
-	Entries []Entry    `json:"entries,omitempty"`
-	Pred    *Filter    `json:"pred,omitempty"`
-	TM      []Mutation `json:"tm,omitempty"`
-	FM      []Mutation `json:"fm,omitempty"`
-	Rules   []Rule     `json:"rules,omitempty"`
-	Keys    [][]byte   `json:"keys,omitempty"`
-	Ranges  []RowRange `json:"ranges,omitempty"`
-	Filter  *Filter    `json:"filter,omitempty"`
-	Limit   int64      `json:"limit,omitempty"`
+	Kind     string     `json:"kind"`
+	Parent   string     `json:"parent,omitempty"`
+	Tid      string     `json:"tid,omitempty"`
+	Fams     []FamDef   `json:"fams,omitempty"`
+	Table    string     `json:"table,omitempty"`
+	Mods     []FMod     `json:"mods,omitempty"`
+	All      bool       `json:"all,omitempty"`
+	Prefix   []byte     `json:"prefix,omitempty"`
+	HasPfx   bool       `json:"haspfx,omitempty"`
+	AllFalse bool       `json:"allfalse,omitempty"` // drop: the target is delete_all_data_from_table=false (sent explicitly)
+	Key      []byte     `json:"key,omitempty"`
+	Muts     []Mutation `json:"muts,omitempty"`
+	Entries  []Entry    `json:"entries,omitempty"`
+	Pred     *Filter    `json:"pred,omitempty"`
+	TM       []Mutation `json:"tm,omitempty"`
+	FM       []Mutation `json:"fm,omitempty"`
+	Rules    []Rule     `json:"rules,omitempty"`
+	Keys     [][]byte   `json:"keys,omitempty"`
+	Ranges   []RowRange `json:"ranges,omitempty"`
+	Filter   *Filter    `json:"filter,omitempty"`
+	Limit    int64      `json:"limit,omitempty"`
 	// read only, oracle-only cases: the client goes away -- the stream's Send fails from the n-th message on
 	FailSend int `json:"fail_send,omitempty"`
 }
@@ -1039,6 +1040,8 @@ func (e *Emu) exec(c Call) Resp {
 			req.Target = &btapb.DropRowRangeRequest_DeleteAllDataFromTable{DeleteAllDataFromTable: true}
 		} else if r.HasPfx {
 			req.Target = &btapb.DropRowRangeRequest_RowKeyPrefix{RowKeyPrefix: r.Prefix}
+		} else if r.AllFalse {
+			req.Target = &btapb.DropRowRangeRequest_DeleteAllDataFromTable{DeleteAllDataFromTable: false}
 		}
 		_, err := admin.DropRowRange(ctx, rt(req))
 		return Resp{Code: codeOf(err), Kind: "none"}
